@@ -119,6 +119,7 @@ def unflatten(h):
         qn = R + 'UnflattenView.__iter__'
         spec = LoopSpec(invariant=inv, delta=delta, label='values', types={'row': 'seq'})
         spec.rebind = rebind
+        spec.on_exit = lambda ls, count: box.__setitem__('rem', ls['row'].len)      # the pending window when the values run out
         it = h.interp(ctx, loops={(qn, 0): spec})
         it.check_pulls = False
         vals = sym_seq(ctx, 'vals')
@@ -137,14 +138,14 @@ def unflatten(h):
             n = vals.len
             o = out_row(post, 0)
             q = smt.fresh_int('q')
-            rem = smt.fresh_int('rem')
-            # the pending window at the end: the last `rem` values, 1 <= rem <= period unless there were no values (invariant at exit)
+            rem = box['rem']
+            # the pending window at the end: the last `rem` = len(row) values, 1 <= rem <= period unless there were no values (invariant at exit)
             ctx.oblige('unflatten: after the last value the pending window (1..period values, the LAST ones) is emitted once, padded with `missing`; '
                        'nothing is emitted when there are no values',
                        z3.If(n == 0, post.len == 0,
                              z3.And(post.len == 1, o.len == period.t,
-                                    z3.Exists([rem], z3.And(1 <= rem, rem <= period.t, rem <= n,
-                                                            z3.ForAll([q], z3.Implies(z3.And(0 <= q, q < period.t),
-                                                                                      z3.Select(o.arr, q) == z3.If(q < rem, z3.Select(vals.arr, n - rem + q), missing.t))))))))
+                                    1 <= rem, rem <= period.t, rem <= n,
+                                    z3.ForAll([q], z3.Implies(z3.And(0 <= q, q < period.t),
+                                                              z3.Select(o.arr, q) == z3.If(q < rem, z3.Select(vals.arr, n - rem + q), missing.t))))))
             ctx.oblige('unflatten: exactly one header row before the data', pre.len == 1)
     h.explore(body)
